@@ -232,6 +232,31 @@ def oracle(p):
         if not any(f["key"] == key for f in fails):
             fails.append(dict(key=key, what=what, **kw))
 
+    # border padding on the whole ITK buffer: a finer target grid covering the same cube (align_corners = False puts its outer
+    # samples in the half-voxel band beyond the first / last source sample centre)
+    for D in (2, 3):
+        for flag in (False, True):
+            sd = dict(size=[5, 4, 3][:D], spacing=[1.0, 2.0, 1.5][:D], center=[1.0, -2.0, 0.5][:D], direction=rand_dir(rng, D), align_corners=flag)
+            try:
+                src = mk(sd)
+                tgt = src.resize([2 * v for v in src.size()])
+                data = ((torch.randn((1,) + tuple(src.shape), dtype=torch.float64) * 32).round() / 8)
+                got = Image(data, src).sample(tgt, mode="linear", padding="border").tensor().double()[0]
+                ref, _ = sitk_resample(src, data, tgt, "linear", 0.0)
+                x = src_index_f64(src, tgt)
+                n = torch.tensor([float(v) for v in src.size()], dtype=torch.float64)
+                sel = ((x >= -0.5 + 2e-3) & (x <= n - 0.5 - 2e-3)).all(dim=-1)
+                inside = ((x >= 0) & (x <= n - 1)).all(dim=-1)
+                counts["border_band"] = counts.get("border_band", 0) + int((sel & ~inside).sum())
+                diff = (got - torch.from_numpy(ref)).abs()
+                if bool((diff[sel] > 2e-4 * (float(data.abs().max()) + 1)).any()):
+                    j = torch.nonzero((diff > 2e-4 * (float(data.abs().max()) + 1)) & sel)[0].tolist()
+                    fail("C05:Image.sample:linear:border:vs-itk-whole-buffer",
+                         f"border padding differs from sitk.Resample inside ITK's buffer at target sample {j[::-1]} (x,..): deepali "
+                         f"{float(got[tuple(j)]):.6g} ITK {float(ref[tuple(j)]):.6g}, source index {x[tuple(j)].tolist()}", src=sd, data=data.tolist())
+            except Exception as e:  # noqa
+                fail("C05:Image.sample:linear:border:raises", f"raises {type(e).__name__}: {str(e)[:120]}", src=sd)
+
     for it in range(p["n"]):
         D = 2 if rng.random() < .55 else 3
         maxn = 12 if D == 2 else 7
@@ -264,6 +289,11 @@ def oracle(p):
                 inbuf = ((x >= -0.5 + 2e-3) & (x <= n - 0.5 - 2e-3)).all(dim=-1)
                 counts["nearest_skipped_ties"] += int((tie & inbuf).sum())
                 sel = inbuf & ~tie
+            elif padding == "border":
+                # border padding: equality on ITK's whole buffer [-1/2, n-1/2) (C05_sample_matches_itk_border2/3), which
+                # includes the outer half-voxel band of the source field of view for align_corners = False
+                sel = ((x >= -0.5 + 2e-3) & (x <= n - 0.5 - 2e-3)).all(dim=-1)
+                counts["border_band"] = counts.get("border_band", 0) + int((sel & ~inside).sum())
             else:
                 sel = inside
             counts["inside_fov"] += int(sel.sum())
